@@ -36,7 +36,7 @@ theorem updateArgs_unknown (c : Cls) (acc : Accum) (ch : Tree) (sub : PyM Node)
 theorem updateArgs_congr (c : Cls) (acc : Accum) (ch ch' : Tree) (sub : PyM Node)
     (ht : ch'.tag = ch.tag) (hx : ch'.text = ch.text) :
     updateArgs c acc ch' sub = updateArgs c acc ch sub := by
-  unfold updateArgs; rw [ht, hx]
+  unfold updateArgs childValue; rw [ht, hx]
 
 theorem childInsts_append (S : Schema) (cv : Conv) (a b : List Tree) :
     childInsts S cv (a ++ b) = childInsts S cv a ++ childInsts S cv b := by
